@@ -3,6 +3,7 @@ package main
 import (
 	"fmt"
 	"go/types"
+	"regexp"
 	"strings"
 	"unicode"
 )
@@ -444,7 +445,10 @@ type SpecFn struct {
 	Name   string
 	Params []SVar
 	Result string // type string
-	Heaps  []string
+	Heaps  []string // resolved heap keys
+	HeapSorts []string
+	Reads  []string // as written: pkg.Type.field
+	resolved bool
 	pkg    *types.Package
 }
 
@@ -464,7 +468,10 @@ type Axiom struct {
 	Pkg  string
 }
 
+var withoutRe = regexp.MustCompile(`^([\w#-]+)\s*\(without ([^)]*)\)\s*:`)
+
 type Lemma struct {
+	Without []string
 	Name  string
 	Props []string
 	Text  string
@@ -688,6 +695,14 @@ func parseSpecFile(path, text, pkg string, trusted bool) (*SpecFile, error) {
 				return nil, fmt.Errorf("%s: bad spec decl", loc)
 			}
 			fn := &SpecFn{Name: strings.TrimSpace(rest[:i]), Result: strings.TrimSpace(rest[j+1:])}
+			if k := strings.Index(fn.Result, " reads "); k >= 0 {
+				for _, r := range strings.Split(fn.Result[k+7:], ",") {
+					if r = strings.TrimSpace(r); r != "" {
+						fn.Reads = append(fn.Reads, r)
+					}
+				}
+				fn.Result = strings.TrimSpace(fn.Result[:k])
+			}
 			for _, p := range splitTop(rest[i+1:j], ',') {
 				p = strings.TrimSpace(p)
 				if p == "" {
@@ -708,6 +723,11 @@ func parseSpecFile(path, text, pkg string, trusted bool) (*SpecFile, error) {
 			sf.Ghosts = append(sf.Ghosts, &Ghost{Name: strings.TrimSpace(rest[:i]), KeySort: strings.TrimSpace(rest[i+1 : j]), ValType: strings.TrimSpace(rest[j+1:])})
 		case "axiom", "lemma":
 			cur = nil
+			var without []string
+			if m := withoutRe.FindStringSubmatch(rest); m != nil {
+				without = strings.Fields(strings.ReplaceAll(m[2], ",", " "))
+				rest = m[1] + ":" + rest[len(m[0]):]
+			}
 			label, body := splitLabel(rest)
 			e, err := parseSpecExpr(body)
 			if err != nil {
@@ -716,7 +736,7 @@ func parseSpecFile(path, text, pkg string, trusted bool) (*SpecFile, error) {
 			if kw == "axiom" {
 				sf.Axioms = append(sf.Axioms, &Axiom{Name: label, Text: body, Expr: e, File: loc, Pkg: pkg})
 			} else {
-				sf.Lemmas = append(sf.Lemmas, &Lemma{Name: label, Text: body, Expr: e, File: loc, Pkg: pkg, Props: append(append([]string(nil), fileProps...), cprops...)})
+				sf.Lemmas = append(sf.Lemmas, &Lemma{Name: label, Text: body, Expr: e, File: loc, Pkg: pkg, Props: append(append([]string(nil), fileProps...), cprops...), Without: without})
 			}
 		case "define":
 			// define name(a, b) = expr
